@@ -23,7 +23,10 @@ ASSUMPTIONS = ["reference self-tests passed", "forcing an outcome never changes 
 
 
 def strategy(tier):
-    return S.program_case(["measure", "measure", "op", "kraus", "struct", "comp"], max_steps=4)
+    from hypothesis import strategies as st
+
+    return st.one_of(S.program_case(["measure", "measure", "op", "kraus", "struct", "comp"], max_steps=4),
+                     S.program_case(["measure", "measure", "op", "kraus", "struct", "comp"], max_steps=4), S.lifecycle_case(max_tail=2))
 
 
 def run_case(case):
